@@ -5,7 +5,7 @@
 From Coq Require Import List ZArith Bool.
 Import ListNotations.
 Require Import DV.Common.Base DV.Core.Diagram DV.Core.WF DV.Core.Rigid DV.Core.Functor
-  DV.Core.FunctorLemmas DV.Core.ProgLemmas.
+  DV.Core.FunctorLemmas DV.Core.FunctorDagger DV.Core.ProgLemmas.
 Open Scope Z_scope.
 
 (* images are well-typed, from F(dom) to F(cod) *)
@@ -55,8 +55,15 @@ Theorem functor_preserves_right_adjoints : forall Fn t ft, f_ty Fn t = Ok ft ->
 Proof. exact f_ty_r. Qed.
 Print Assumptions functor_preserves_right_adjoints.
 
-(* the dagger law F(d[::-1]) == F(d)[::-1] : see functor_dagger_* in
-   Core/FunctorDagger.v; as an equality of values it fails for composite swaps
-   (finding F19), so the general statement is kept here, not asserted *)
+(* the dagger law F(d[::-1]) == F(d)[::-1], as an equality of values, for diagrams whose
+   boxes are plain (possibly daggered) boxes with well-typed images made of library-shaped
+   boxes.  For diagrams containing composite swaps the law is false as == (finding F19;
+   harness witness), so the unrestricted statement is kept as a Definition, not asserted. *)
+Theorem functor_preserves_dagger_of_plain_boxes : forall Fn d,
+  wf d -> defined_on Fn d -> Forall (plain_ok Fn) (dboxes d) ->
+  f_apply Fn (ddagger d) = (do fd <- f_apply Fn d; Ok (ddagger fd)).
+Proof. exact functor_dagger_plain. Qed.
+Print Assumptions functor_preserves_dagger_of_plain_boxes.
+
 Definition functor_dagger_stmt : Prop := forall Fn d, wf d -> defined_on Fn d ->
   f_apply Fn (ddagger d) = (do fd <- f_apply Fn d; Ok (ddagger fd)).
